@@ -2177,6 +2177,18 @@ fn parse_parameters(
         if let Some(token) = tokens.peek() {
             if token.text == "," {
                 tokens.pop();
+
+                // A trailing comma at the end of the file: stop,
+                // rather than parsing the comma again.
+                if tokens.is_empty() {
+                    diagnostics.push(ParseError::Incomplete {
+                        position: token.position,
+                        message: ErrorMessage(vec![msgtext!(
+                            "Expected a parameter after this, but reached the end of the file."
+                        )]),
+                    });
+                    break;
+                }
             } else if token.text == ")" {
                 break;
             } else {
